@@ -38,14 +38,15 @@ def nonCommodityChars : List Char := " \t\r\n0123456789.,;:?!-+*/^&|=<>[](){}@".
 
 /-- A payee that the header parser reads back unchanged: no `;` (would start a comment), no line break,
 no blank at either end (`space0` before, `trim_end` after), and — when the header carries no `(code)` —
-no leading `(` (would be read as a code, `paren_str` searches for `)` across lines). -/
+not a leading `(` that is closed by a `)` further on (would be read as a code; `paren_str` must close on the
+same line, so a payee such as `(abc` is read back as the payee). -/
 def cleanPayee (hasCode : Bool) (s : String) : Bool :=
   let cs := s.toList
   cs.all (fun c => !(c == ';' || isLineBreak c)) && isTrimmed cs &&
-  (hasCode || cs.head? != some '(')
+  (hasCode || cs.head? != some '(' || !cs.contains ')')
 
-/-- A code survives `paren_str` (`take_till(0.., ')')`) iff it holds no `)`. Line breaks are excluded as well
-(the printed header must stay one line). -/
+/-- A code survives `paren_str` (`take_till(0.., [')', '\r', '\n'])`, then `)`) iff it holds no `)` and no line
+break. -/
 def cleanCode (s : String) : Bool := s.toList.all (fun c => !(c == ')' || isLineBreak c))
 
 /-- the `key … :` shape that `metadata_kv` takes: a run of non-blank non-colon characters, blanks, a colon -/
